@@ -22,7 +22,7 @@ ASSUMPTIONS = [
 
 DIFFS = ["name", "content", "content-none-vs-empty", "tail", "attr-add", "attr-del", "attr-change", "extra", "prefix",
          "ns", "child-add", "child-del", "child-swap", "extra-change", "extra-rekey", "ns-change", "ns-rekey", "attr-rekey",
-         "prefix-alias", "prefix-alias"]
+         "prefix-alias", "prefix-alias", "default-ns-change", "default-ns-rekey"]
 
 
 @st.composite
@@ -48,6 +48,9 @@ def pair_case(draw):
         able = [(p, x) for p, x in allp if len(x.get(fld) or ()) >= (2 if kind == "child-swap" else 1)]
         allp = able or allp
     path, _ = allp[sel % len(allp)]
+    if kind in ("default-ns-change", "default-ns-rekey"):
+        # a default namespace (key None in the map, as the XML importer files it) on the chosen node of the base tree
+        treegen.spec_at(sp, path)["dns"] = "urn:default"
     if kind == "prefix-alias":
         # two prefixes bound to one namespace in the node's map, the node written with the first: the other tree will
         # differ in nothing but the prefix - which is one of the compared fields
@@ -99,6 +102,14 @@ def apply_diff(sp, d):
         if node.get("p") != "al1":
             return None
         node["p"] = "al2"
+    elif k == "default-ns-change":
+        if "dns" not in node:
+            return None
+        node["dns"] = "urn:other-default"
+    elif k == "default-ns-rekey":
+        if "dns" not in node:
+            return None
+        node.setdefault("lns", {})["dflt"] = node.pop("dns")     # the same URI under a string key instead of None
     elif k in ("extra-change", "extra-rekey", "ns-change", "ns-rekey", "attr-rekey"):
         fld = {"extra": "x", "ns": "ns", "attr": "a"}[k.split("-")[0]]
         if not node.get(fld):
@@ -203,7 +214,7 @@ def apply_edit(n, e):
     elif e == "ns-":
         if not n.nsmap:
             return False
-        n.remove_namespace(sorted(n.nsmap)[0])
+        n.remove_namespace(sorted(n.nsmap, key=lambda k: (k is not None, str(k)))[0])
     elif e == "child+":
         n.add_child(Node("zzNew"))
     elif e == "child-":
